@@ -47,8 +47,9 @@ MODELS = {
     "B4": {"filt": "none", "e": 1, "uperiod": 1},  # two unrestricted discrete choices (same kind), period in utility
     "B5": {"filt": "states", "e": 1},  # TWO restricted states (s: 3 labels, g: 2 labels), hash-seed cases only
     "B6": {"h": "three"},  # three stochastic states, hash-seed cases only
+    "B7": {"h": "two"},  # two stochastic states with equal label counts
 }
-SEQ_MODELS = ["B0", "B1", "B2", "B3", "B4"]
+SEQ_MODELS = ["B0", "B1", "B2", "B3", "B4", "B7"]
 SOLVE_LETTERS = ["solve(P1)", "solve(P2)", "solve(P1np)", "solve(P1jax)", "solve(M:=P1)", "solve(M:=P3 in place)"]
 SIM_LETTERS = ["sim(P1,S1,0)", "sim(P2,S2,1)", "sim(P1,S2,0)", "sim(P1,S1,1)", "sim(M:=P1,S1,0)", "sim(M:=P3 in place,S1,0)"]
 VARIANTS = ["A", "A-loggrid", "A-coef", "A-auxbody", "A-filter"]
